@@ -165,6 +165,24 @@ func (g EnvToStackInstr) Execute(env *Zlisp) error {
 	return nil
 }
 
+// BindFormInstr binds a macro parameter to the argument form as it is.
+type BindFormInstr struct {
+	sym *SexpSymbol
+}
+
+func (p BindFormInstr) InstrString() string {
+	return fmt.Sprintf("bindForm %s", p.sym.name)
+}
+
+func (p BindFormInstr) Execute(env *Zlisp) error {
+	expr, err := env.datastack.PopExpr()
+	if err != nil {
+		return err
+	}
+	env.pc++
+	return env.LexicalBindSymbol(p.sym, expr)
+}
+
 type PopStackPutEnvInstr struct {
 	sym *SexpSymbol
 }
